@@ -15,6 +15,13 @@ import (
 const StatusClientClosedRequest = 499
 
 func newHTTPProxy(target *url.URL, tr http.RoundTripper, flush time.Duration) http.Handler {
+	return http.HandlerFunc(func(w http.ResponseWriter, r *http.Request) {
+		newReverseProxy(r, target, tr, flush).ServeHTTP(w, r)
+	})
+}
+
+// newReverseProxy returns the reverse proxy for the inbound request in.
+func newReverseProxy(in *http.Request, target *url.URL, tr http.RoundTripper, flush time.Duration) *httputil.ReverseProxy {
 	return &httputil.ReverseProxy{
 		// this is a simplified director function based on the
 		// httputil.NewSingleHostReverseProxy() which does not
@@ -26,6 +33,16 @@ func newHTTPProxy(target *url.URL, tr http.RoundTripper, flush time.Duration) ht
 			req.URL.Path = target.Path
 			req.URL.RawPath = target.RawPath
 			req.URL.RawQuery = target.RawQuery
+			// The reverse proxy forwards a copy of the request. The values
+			// of the trailer fields the client has announced arrive after
+			// the body and the server stores them in the trailer of the
+			// inbound request: the copy would keep the announced names
+			// without values and the upstream would get an empty trailer.
+			// Share the map so that the transport, which writes the trailer
+			// when it has read the body to its end, finds the values.
+			if in.Trailer != nil {
+				req.Trailer = in.Trailer
+			}
 			if _, ok := req.Header["User-Agent"]; !ok {
 				// explicitly disable User-Agent so it's not set to default value
 				req.Header.Set("User-Agent", "")
